@@ -126,9 +126,19 @@ def run(ch, idx, tier):
     def pristine(which="shared"):
         return pickle.loads(blob if which == "shared" else blob_b)
 
-    d_res0 = digest_result(res)
+    def full_digest(r):
+        # every array of the result plus the wiring the reporting code walks (which links belong to which
+        # population, compartment and parameter): a reporting call that re-wires the model changes later reports
+        m = r.model
+        wiring = []
+        for pop in m.pops:
+            ids = {id(l): i for i, l in enumerate(pop.links)}
+            wiring.append((pop.name, len(pop.links), [(k2, [ids.get(id(l), -1) for l in v]) for k2, v in pop.link_lookup.items()], [(c.name, len(c.inlinks), len(c.outlinks)) for c in pop.comps], [(q.name, len(q.links)) for q in pop.pars], [(c.name, len(c.includes)) for c in pop.characs]))
+        return digest_result(r) + hashlib.sha256(repr(wiring).encode()).hexdigest()[:16]
+
+    d_res0 = full_digest(res)
     d_aux0 = digest_obj([res.model.progset, res.model.program_instructions, res.model.framework])
-    d_resb0 = digest_result(res_b) if res_b is not None else None
+    d_resb0 = full_digest(res_b) if res_b is not None else None
     fw = res.framework
     pops = [p.name for p in res.model.pops]
     pop0 = res.model.pops[0]
@@ -449,8 +459,8 @@ def run(ch, idx, tier):
         bump("probe:cascade_data_checked")
 
     def misc_op(k):
-        kind = ch.choose("misc.kind", 9)
-        label = ["get_coverage", "get_alloc", "get_equivalent_alloc", "export_raw", "export_results", "plot_series", "plot_bars", "plot_cascade", "Result.plot"][kind]
+        kind = ch.choose("misc.kind", 10)
+        label = ["get_coverage", "get_alloc", "get_equivalent_alloc", "export_raw", "export_results", "plot_series", "plot_bars", "plot_cascade", "Result.plot", "Result.get_variable"][kind]
         history.append({"op": label})
         try:
             if kind == 0:
@@ -475,8 +485,14 @@ def run(ch, idx, tier):
                 at.plot_bars(d, stack_outputs="all" if ch.flip("misc.stack", 0.5) else None)
             elif kind == 7:
                 at.plot_cascade(res, cascade=None, pops="all", year=float(res.t[-1]), data=P.data if ch.flip("misc.withdata", 0.5) else None)
+            elif kind == 9:
+                # the lookup the plotting/export code itself uses, across all populations or in one
+                nm = all_named[ch.choose("misc.var", len(all_named))]
+                res.get_variable(nm, None if ch.flip("misc.var_allpops", 0.7) else pops[ch.choose("misc.var_pop", len(pops))])
             else:
-                res.plot(project=P if ch.flip("misc.project", 0.5) else None)
+                plot_names = [str(x) for x in P.framework.sheets["plots"][0]["name"]] if "plots" in P.framework.sheets and len(P.framework.sheets["plots"]) else []
+                which = ch.choose("misc.plot_name", len(plot_names) + 1)
+                res.plot(plot_name=plot_names[which - 1] if which else None, project=P if ch.flip("misc.project", 0.5) else None)
         except Exception as e:
             bump(f"call_raised:{label}:{type(e).__name__}")
         finally:
@@ -563,15 +579,15 @@ def run(ch, idx, tier):
                 interpolate_op(k)
             # ---- shared-object invariant after every call ----------------------------------------
             invariant_checks += 1
-            if digest_result(res) != d_res0:
+            if full_digest(res) != d_res0:
                 violate("reporting_modifies_result", history[-1]["op"], {"after": history[-1]})
-                d_res0 = digest_result(res)
+                d_res0 = full_digest(res)
             if digest_obj([res.model.progset, res.model.program_instructions, res.model.framework]) != d_aux0:
                 violate("reporting_modifies_result_inputs", history[-1]["op"], {"after": history[-1]})
                 d_aux0 = digest_obj([res.model.progset, res.model.program_instructions, res.model.framework])
-            if res_b is not None and digest_result(res_b) != d_resb0:
+            if res_b is not None and full_digest(res_b) != d_resb0:
                 violate("reporting_modifies_result", history[-1]["op"] + "[second result]", {"after": history[-1]})
-                d_resb0 = digest_result(res_b)
+                d_resb0 = full_digest(res_b)
     finally:
         plt.close("all")
         shutil.rmtree(scratch, ignore_errors=True)
